@@ -2,77 +2,45 @@
 Require Import OV.Base.Bytes OV.Base.Py OV.Gen.C20_Consts OV.Model.C20_OS OV.Model.C20 OV.Gen.C20_Code.
 Open Scope Z_scope.
 
-(* ---------- the statement-level translation of the source equals the model ---------- *)
+(* ---------- the statement-level translation of the source equals the model ----------
+   The proofs are by exhaustive case analysis on the scrutinees of the two sides (robust
+   against renamings and reorderings of the generated text; a behavioural difference
+   leaves an unprovable goal). *)
+Ltac break_match :=
+  match goal with
+  | |- context [match ?x with _ => _ end] =>
+      lazymatch x with
+      | context [match _ with _ => _ end] => fail      (* innermost scrutinee first *)
+      | _ => first [is_var x; destruct x | destruct x eqn:?]
+      end
+  end.
+Ltac equiv_step := first [reflexivity | solve [cbn [andb orb negb] in *; congruence] | progress cbn [andb orb negb] | break_match].
+Ltac equiv_auto := repeat equiv_step.
+
 Section Equiv.
 Context {W H : Type} (rt : runtime W H).
 
 Theorem gen_ensure_tree_equiv path mode w :
   gen_ensure_tree rt path mode w = ensure_tree rt path mode w.
-Proof.
-  unfold gen_ensure_tree, ensure_tree.
-  destruct (rt_makedirs rt path mode w) as [w1 [u|e|x]]; try reflexivity.
-  destruct (e =? errno_EEXIST); cbn [andb negb]; [|reflexivity].
-  destruct (rt_isdir rt path w1); reflexivity.
-Qed.
+Proof. unfold gen_ensure_tree, ensure_tree. equiv_auto. Qed.
 
 Theorem gen_delete_if_exists_equiv (path : bytes) (remove : bytes -> W -> W * ores unit) (w : W) :
   gen_delete_if_exists path remove w = delete_if_exists path remove w.
-Proof.
-  unfold gen_delete_if_exists, delete_if_exists.
-  destruct (remove path w) as [w1 [u|e|x]]; try reflexivity.
-  destruct (e =? errno_ENOENT); reflexivity.
-Qed.
+Proof. unfold gen_delete_if_exists, delete_if_exists. equiv_auto. Qed.
 
 Theorem gen_write_to_tempfile_equiv content path suffix prefix w :
   gen_write_to_tempfile rt content path suffix prefix w = write_to_tempfile rt content path suffix prefix w.
 Proof.
-  assert (Tail : forall w1,
-    match rt_mkstemp rt suffix path prefix w1 with
-    | (w2, OOk (fd, name)) =>
-        match rt_write rt fd content w2 with
-        | (w3, OOk _) =>
-            match rt_close rt fd w3 with
-            | (w4, OOk _) => (w4, OOk name) | (w4, OErr e) => (w4, OErr e) | (w4, OExn x) => (w4, OExn x) end
-        | (w3, OErr e1) =>
-            match rt_close rt fd w3 with
-            | (w4, OOk _) => (w4, OErr e1) | (w4, OErr e) => (w4, OErr e) | (w4, OExn x) => (w4, OExn x) end
-        | (w3, OExn x1) =>
-            match rt_close rt fd w3 with
-            | (w4, OOk _) => (w4, OExn x1) | (w4, OErr e) => (w4, OErr e) | (w4, OExn x) => (w4, OExn x) end
-        end
-    | (w2, OErr e) => (w2, OErr e)
-    | (w2, OExn x) => (w2, OExn x)
-    end =
-    match rt_mkstemp rt suffix path prefix w1 with
-    | (w2, OErr e) => (w2, OErr e)
-    | (w2, OExn x) => (w2, OExn x)
-    | (w2, OOk (fd, name)) =>
-        match write_and_close rt fd content w2 with
-        | (w3, OOk _) => (w3, OOk name)
-        | (w3, OErr e) => (w3, OErr e)
-        | (w3, OExn x) => (w3, OExn x)
-        end
-    end).
-  { intros w1. destruct (rt_mkstemp rt suffix path prefix w1) as [w2 [[fd name]|e|x]]; try reflexivity.
-    unfold write_and_close.
-    destruct (rt_write rt fd content w2) as [w3 [n|e1|x1]];
-      destruct (rt_close rt fd w3) as [w4 [u|e2|x2]]; reflexivity. }
-  unfold gen_write_to_tempfile, write_to_tempfile.
-  destruct path as [p|].
-  - destruct (nonempty p).
-    + rewrite gen_ensure_tree_equiv.
-      destruct (ensure_tree rt p default_mode w) as [w1 [u|e|x]]; try reflexivity. apply Tail.
-    + apply Tail.
-  - apply Tail.
+  unfold gen_write_to_tempfile, write_to_tempfile, write_and_close.
+  repeat first [rewrite gen_ensure_tree_equiv in * | equiv_step].
 Qed.
 
-Lemma gen_loop_equiv fuel path n alg f h :
-  gen_compute_file_checksum_loop rt fuel path n alg f h = read_loop rt fuel n f h.
+Lemma gen_loop_equiv fuel n f h :
+  gen_compute_file_checksum_loop rt fuel n f h = read_loop rt fuel n f h.
 Proof.
   revert f h. induction fuel as [|k IH]; intros f h; [reflexivity|].
   cbn [gen_compute_file_checksum_loop read_loop].
-  destruct (fread f n) as [f1 [chunk|e|x]]; try reflexivity.
-  destruct (beq chunk []); [reflexivity|]. apply IH.
+  repeat first [apply IH | equiv_step].
 Qed.
 
 Theorem gen_compute_file_checksum_equiv path n alg w :
@@ -80,22 +48,12 @@ Theorem gen_compute_file_checksum_equiv path n alg w :
   match compute_file_checksum rt path n alg w with Some r => r | None => OExn OtherError end.
 Proof.
   unfold gen_compute_file_checksum, compute_file_checksum.
-  destruct (rt_hash_new rt alg) as [h0|e|x]; try reflexivity.
-  destruct (rt_open_rb rt path w) as [data|e|x]; try reflexivity.
-  rewrite gen_loop_equiv.
-  destruct (read_loop rt (loop_fuel (fopen data)) n (fopen data) h0) as [[[f1 h]|e|x]|]; try reflexivity.
-  destruct (rt_hexdigest rt h); reflexivity.
+  repeat first [rewrite gen_loop_equiv in * | equiv_step].
 Qed.
 
 Theorem gen_last_bytes_equiv path num w :
   gen_last_bytes rt path num w = last_bytes rt path num w.
-Proof.
-  unfold gen_last_bytes, last_bytes, tell_and_read.
-  destruct (rt_open_rb rt path w) as [data|e|x]; try reflexivity.
-  all: try (destruct (fseek (fopen data) (- num) os_SEEK_END) as [fp [t|e|x]]; try reflexivity).
-  all: try (destruct (e =? errno_EINVAL); [|reflexivity];
-            destruct (fseek fp 0 os_SEEK_SET) as [fp2 [t|e2|x]]; reflexivity).
-Qed.
+Proof. unfold gen_last_bytes, last_bytes, tell_and_read. equiv_auto. Qed.
 End Equiv.
 
 (* ---------- the file object ---------- *)
